@@ -425,6 +425,27 @@ func vfPMMShapes(frames []uint64, gaps, skews []uint64, types []uint32) []vfShap
 	return shapes
 }
 
+// vfPMMShapesHT is vfPMMShapes with separate alphabets for the offset of the region start and of the region end inside
+// their pages (the sub-page lattice: only the order of the two offsets relative to each other, to half a page and to the
+// page boundaries can matter to frame arithmetic).
+func vfPMMShapesHT(frames []uint64, gaps, heads, tails []uint64, types []uint32) []vfShape {
+	var shapes []vfShape
+	for _, g := range gaps {
+		for _, f := range frames {
+			for _, h := range heads {
+				for _, tl := range tails {
+					for _, ty := range types {
+						shapes = append(shapes, vfShape{g, f, h, tl, ty})
+					}
+				}
+			}
+		}
+	}
+	return shapes
+}
+
+var vfSubPage = []uint64{0, 1, 0x400, 0x800, 0xc00, 0xfff}
+
 // vfPMMConfigs derives the kernel placements / early extras for one layout.
 func vfPMMConfigs(regs []vfRegion, extras []int, endSkews []uint64, f func(cfg vfConfig)) {
 	avail, _ := vfAvail(regs)
@@ -517,6 +538,18 @@ func TestVerifPMM(t *testing.T) {
 		})
 		run.Count("graph_configs_3_regions", int64(n3))
 	}
+	// Tier A4: the sub-page lattice - region start and end at every combination of offsets {0,1,quarter,half,three
+	// quarters,0xfff} inside their pages, one region and (available regions only) two regions
+	{
+		n4 := 0
+		vfLayoutsSharded([]uint64{0x100000}, vfPMMShapesHT([]uint64{0, 1, 2}, []uint64{0}, vfSubPage, vfSubPage, []uint32{1}), 2, run.Mine, func(regs []vfRegion) {
+			vfPMMConfigs(regs, []int{0, 1}, []uint64{0x10}, func(cfg vfConfig) {
+				n4++
+				c.checkConfig(cfg, "graph")
+			})
+		})
+		run.Count("graph_configs_sub_page_lattice", int64(n4))
+	}
 	// Tier B: bitmap word boundaries, drain + free probes
 	big := vfPMMShapes([]uint64{1, 63, 64, 65, 128, 129}, []uint64{0, 4096}, []uint64{0}, []uint32{1, 2})
 	big = append(big, vfShape{0, 65, 0x400, 0x400, 1}, vfShape{0, 129, 0, 0x400, 1}, vfShape{0, 64, 0x400, 0, 1})
@@ -531,6 +564,6 @@ func TestVerifPMM(t *testing.T) {
 	run.Count("drain_configs", int64(nB))
 	run.Traces = run.Transitions
 	run.Finish(true,
-		fmt.Sprintf("all memory maps of <=%d regions (plus 3 regions over reduced shapes: frames{1,2} in quick, {0,1,2} in thorough) over frames{0,1,2,3} x gaps x head/tail skew x types %v x 3 bases, every kernel placement (start/middle/end/2 pages/covering), early extras %v, memory-map entry sizes 24 and 40: held-set graph to a fixed point; plus word-boundary pools {1,63,64,65,128,129} frames: drain, single and pairwise frees", maxRegions, types, extras),
+		fmt.Sprintf("all memory maps of <=%d regions (plus 3 regions over reduced shapes: frames{1,2} in quick, {0,1,2} in thorough) over frames{0,1,2,3} x gaps x head/tail skew x types %v x 3 bases, every kernel placement (start/middle/end/2 pages/covering), early extras %v, memory-map entry sizes 24 and 40; region start/end offsets over the sub-page lattice {0,1,0x400,0x800,0xc00,0xfff}^2 for one and two regions: held-set graph to a fixed point; plus word-boundary pools {1,63,64,65,128,129} frames: drain, single and pairwise frees", maxRegions, types, extras),
 		"a configuration is distinct by (map, kernel, extras) and non-trivial if at least two frames were held at once (graph) or the pool was drained (drain)")
 }
